@@ -138,13 +138,15 @@ def parse_case(line):
     e = dict(tid=ni(), code=ni(), flags=ni(), np=ni(), i0=ni(), i1=ni(), i2=ni(), addr=ni(), ck=ni(), ip=ni(), sp=ni())
     c.exc = e if pres else None
     ex("B")
-    pres = ni()
+    pres = ni()                      # 0 absent | 1 the 12-byte structure | 2 truncated to 8 bytes (unreadable) | 3 16 bytes
     b = (ni(), ni(), ni())
-    c.bp = b if pres else None
+    c.bp = b if pres in (1, 3) else None
+    c.bp_form, c.bp_raw = pres, b
     ex("M")
     pres = ni()
-    m = (ni(), ni(), ni(), ni())
-    c.misc = m if pres else None
+    m = (ni(), ni(), ni(), ni())     # m[0] = length of the stream (and size_of_info): unreadable below 24 bytes
+    c.misc = m if pres and m[0] >= 24 else None
+    c.misc_raw = m if pres else None
     ex("L")
     pres = ni()
     l = (ni(), ni())
@@ -207,7 +209,7 @@ class C14(PropBase):
     rule = ("a case describes a whole dump: CPU architecture x platform id, 0..32 threads (duplicate / missing ids, context valid / "
             "absent / wrong flags / truncated, own stack or null descriptor), thread names (duplicates, unreadable), exception record "
             "(thread absent / present / equal to the dump-writer thread, code, flags, 0..15 parameters, context), Breakpad info with every "
-            "validity combination, misc info flag combinations, Linux status stream, modules, overlapping unloaded modules, memory regions. "
+            "validity combination (also truncated / over-long streams), misc info flag combinations and stream lengths below / above the structure, Linux status stream as raw bytes (hostile texts), modules, overlapping unloaded modules, memory regions. "
             "The harness synthesizes it with minidump-synth and runs process_minidump. Non-trivial = at least two threads and an exception "
             "record or Breakpad info; distinct = distinct case lines")
     trusted_base = [
@@ -369,7 +371,7 @@ class C14(PropBase):
         raw = text.encode("utf-8", "surrogateescape") if "\xff" not in text else text.encode("latin-1", "replace")
         return (kind, pid, raw)
 
-    def make_case(self, rng, dist):
+    def make_case(self, rng, dist, short_streams=False):
         arch = rng.choice(ARCHS[:10]) if rng.chance(4, 5) else rng.choice(ARCHS)
         platform = rng.choice(PLATFORMS[:6]) if rng.chance(4, 5) else rng.choice(PLATFORMS)
         osc = os_class(platform)
@@ -472,7 +474,14 @@ class C14(PropBase):
         if rng.chance(1, 2):
             status = self.gen_status(rng)
 
+        bp_form = 1
+        if short_streams:          # Breakpad info / misc info streams shorter (unreadable) or longer than their structure
+            if bp and rng.chance(1, 6):
+                bp_form = rng.choice([2, 2, 3])
+            if misc and rng.chance(1, 5):
+                misc = (rng.choice([20, 23, 0, 4, 25, 45, 232, 1364]),) + misc[1:]
         c = Case()
+        c.bp_form = bp_form
         c.arch, c.platform, c.time = arch, platform, rng.choice([0, 1262805309, U32, rng.below(1 << 32)])
         c.threads, c.names, c.exc, c.bp, c.misc, c.status, c.mods, c.unl, c.mems = threads, names, exc, bp, misc, status, mods, unl, mems
         dist["os_" + osc] = dist.get("os_" + osc, 0) + 1
@@ -497,7 +506,7 @@ class C14(PropBase):
         parts += ["%d %d %d" % nm for nm in names]
         parts.append("E %d %d %d %d %d %d %d %d %d %d %d %d" % (1 if exc else 0, e["tid"], e["code"], e["flags"], e["np"], e["i0"], e["i1"], e["i2"],
                                                                e["addr"], e["ck"], e["ip"], e["sp"]))
-        parts.append("B %d %d %d %d" % ((1,) + bp if bp else (0, 0, 0, 0)))
+        parts.append("B %d %d %d %d" % ((getattr(c, "bp_form", 1),) + bp if bp else (0, 0, 0, 0)))
         parts.append("M %d %d %d %d %d" % ((1,) + misc if misc else (0, 0, 0, 0, 0)))
         parts.append("L 1 %d %d %s" % (status[0], status[1], status[2].hex() or "-") if status else "L 0 0 0 -")
         parts.append("MOD %d" % len(mods))
@@ -511,7 +520,7 @@ class C14(PropBase):
         return " ".join(parts)
 
     def gen_case(self, rng, dist):
-        return self.format_case(self.make_case(rng, dist))
+        return self.format_case(self.make_case(rng, dist, short_streams=True))
 
     def gen_cases(self, tier, seed):
         rng = Rng(seed)
